@@ -17,7 +17,8 @@ engines = {}
 for p in props:
     pid = p["id"]
     path = os.path.join(HERE, "harness", "props", pid + ".py")
-    if not os.path.exists(path):
+    integrated = set(open(os.path.join(HERE, "integrated.txt")).read().split())
+    if not os.path.exists(path) or pid not in integrated:
         na.append(dict(property_id=pid, reason="not yet covered: the Lean model and correspondence for this area are not built in this revision (see DESIGN.md section 5 for the plan)"))
         continue
     try:
